@@ -70,6 +70,20 @@ def _classes():
     return {"plain": AttributeDict, "html": HTMLAttributeDict, "xml": XMLAttributeDict}, {1: AttributeValueList, 2: MyList}
 
 
+def _numclasses():
+    """proper subclasses of int and float (a unit class, an IntEnum, an IntFlag, a float subclass): numbers like any other"""
+    global Px, Level, Flag, Ratio
+    try:
+        return Px, Level, Flag, Ratio
+    except NameError:
+        import enum
+        Px = type("Px", (int,), {})
+        Level = enum.IntEnum("Level", {"LOW": 0, "MID": 2, "NEG": -5})
+        Flag = enum.IntFlag("Flag", {"A": 1, "B": 4})
+        Ratio = type("Ratio", (float,), {})
+        return Px, Level, Flag, Ratio
+
+
 def _mystr():
     global MyStr
     try:
@@ -112,6 +126,11 @@ def mk(desc):
         return int(d)
     if t == "f":
         return float(desc[1])
+    if t == "I":        # an instance of a proper subclass of int
+        Px, Level, Flag, _ = _numclasses()
+        return {"px": Px, "level": Level, "flag": Flag}[desc[1]](int(desc[2]))
+    if t == "F":        # an instance of a proper subclass of float
+        return _numclasses()[3](float(desc[1]))
     if t == "l":
         _, lc = _classes()
         cls = list if desc[1] == 0 else lc[desc[1]]
@@ -213,7 +232,22 @@ def cls_name(d) -> str:
     for n, c in dc.items():
         if type(d) is c:
             return n
+    for n in ("html", "xml", "plain"):          # a user's subclass behaves as its base class
+        if isinstance(d, dc[n]) and type(d).__name__.startswith("Sub"):
+            return n
     return "other:" + type(d).__name__
+
+
+def _dict_subclasses():
+    global SubPlain, SubHtml, SubXml
+    try:
+        return {"plain": SubPlain, "html": SubHtml, "xml": SubXml}
+    except NameError:
+        dc, _ = _classes()
+        SubPlain = type("SubPlain", (dc["plain"],), {})
+        SubHtml = type("SubHtml", (dc["html"],), {})
+        SubXml = type("SubXml", (dc["xml"],), {})
+        return {"plain": SubPlain, "html": SubHtml, "xml": SubXml}
 
 
 def lcls_id(c) -> int:
@@ -364,7 +398,8 @@ def builder_kwargs(cfg):
         forms = (set, frozenset, list, tuple)
         kw["multi_valued_attributes"] = None if cfg["mva"] is None else {k: forms[(len(k) + len(v)) % 4](v) for k, v in cfg["mva"]}
     if cfg.get("dcls", "absent") != "absent":
-        kw["attribute_dict_class"] = dc[cfg["dcls"]]
+        # under the "subclass" argument form the dictionary class is a user's subclass of the named class
+        kw["attribute_dict_class"] = (_dict_subclasses() if cfg.get("form") == "subclass" else dc)[cfg["dcls"]]
     if cfg.get("lcls", 0) != 0:
         kw["attribute_value_list_class"] = lc[cfg["lcls"]]
     od = cfg.get("ondup", "absent")
@@ -661,7 +696,7 @@ def execute(case):
             extra.append(("verbatim value", "a b", v))
         return "0", extra
     if kind == "dict":
-        d = dc[case["cls"]]()
+        d = (_dict_subclasses() if case.get("sub") else dc)[case["cls"]]()      # "sub": a user's subclass of the container
         try:
             for kd, vd in case["sets"]:
                 d[mk_key(kd)] = mk(vd)
@@ -792,6 +827,8 @@ VALUE_GRID = (
     + [("i", d) for d in ["0", "1", "-1", "7", "-12", "255", "E30", "-E30", "E4299", "E4300", "-E4300", "-E4299"]]
     + [("f", d) for d in ["0.0", "-0.0", "1.5", "-2.25", "1e300", "1e-07", "inf", "-inf", "nan", "3.0"]]
     + [("l", 0, []), ("l", 0, ["a"]), ("l", 0, ["a", "b"]), ("l", 1, ["x", "y"]), ("l", 2, ["p"]), ("l", 1, []), ("l", 0, [""])]
+    + [("I", "px", "0"), ("I", "px", "-7"), ("I", "px", "12"), ("I", "level", "0"), ("I", "level", "2"), ("I", "level", "-5"),
+       ("I", "flag", "1"), ("I", "flag", "4"), ("F", "0.0"), ("F", "1.5"), ("F", "-0.0"), ("F", "nan")]
     + [("t", ["a", "b"]), ("t", [])]
     + [("o", n) for n, _ in OTHERS]
 )
@@ -1721,7 +1758,7 @@ def run(ctx: Ctx):
     ctx.exhaustive_parts.append(f"dict: every key form x every grid value x 3 container classes, on an empty and on a populated dictionary ({len(cases)} cases)")
     r = ctx.rng("dict")
     for _ in range(ctx.n(5000, 40000)):
-        cases.append({"kind": "dict", "cls": r.choice(["html", "xml", "plain"]),
+        cases.append({"kind": "dict", "cls": r.choice(["html", "xml", "plain"]), "sub": r.random() < 0.25,
                       "sets": [[list(r.choice(KEYS)), pick_value(r)] for _ in range(r.randint(2, 5))]})
     for c in cases:
         for _, vd in c["sets"]:
